@@ -12,7 +12,7 @@ import (
 	vsql "github.com/nuetzliches/hookaido/internal/verifsql"
 )
 
-// verif:harness props=C05,C03,C01 tprops=C02 tier=quick weight=120
+// verif:harness props=C05,C03,C01 tier=quick weight=120 tonly=C05
 // verif:bounds SQLiteStore.Dequeue over the SQL model: N=2 rows (thorough 3) on routes r0/r1 in any state with arbitrary timestamps; route filter none/r0/r1; batch 1..2; arbitrary positive lease TTL; the expired-lease sweep either due (last sweep at an arbitrary instant at least the sweep interval ago, or never) or throttled (a nanosecond ago); one call; the store object is fresh apart from the sweep stamp, i.e. this is also the first dequeue after a restart on a table left behind by a killed process (C01: leased-at-crash messages are offered again)
 func VerifC05SQLDequeue() {
 	n, maxBatch := 2, 2
@@ -130,7 +130,7 @@ func VerifC05SQLDequeue() {
 	vrt.Assert("C02.sql.inv.dequeue", qInv(w))
 }
 
-// verif:harness props=C12 tprops=C02,C13 tier=quick weight=120
+// verif:harness props=C12 tier=quick weight=120
 // verif:bounds SQLiteStore.Enqueue / EnqueueBatch(2) over the SQL model: N=2 rows (thorough 3) in any state; max_depth 0 (off), 1..N+1; drop policy reject / drop_oldest; new ids from {fresh, fresh2, id of row 0}; the queueLikelyFull fast path armed or not
 func VerifC12SQLEnqueue() {
 	n := 2
